@@ -310,8 +310,51 @@ def r4(F, rep):
             detail="the coordinate would not feel the coupling spring", func=f.q)
 
 
+def r5(F, rep):
+    rep.rule("C17-R5", "the coupling spring has one source: the coupling energy (potential_energy) and the spring force "
+                       "(f_system of a variable that is not driven externally) are computed in the integrator from the "
+                       "variable's own metric, dist2() and dist2_lgrad(), applied to the same pair (x_ext, x); no raw "
+                       "difference of the two values enters the spring force")
+    f = F.one(INTEG)
+    pot = [w for w, op in writes_to(f, "potential_energy") if op == "="]
+    spring = []
+    for w, tgt in lvalue_writes(f):
+        t = X.strip(tgt)
+        if t["k"] == "DeclRefExpr" and t.get("n") == "f_system" and w.get("op") == "=":
+            facts, _ = C.guard_facts(f, w)
+            if any(x[0] == "false" and "f_cv_external" in x[1] for x in facts):
+                spring.append(w)
+    if not pot or not spring:
+        raise AnalysisBroken("integrator: potential_energy / f_system assignments not found")
+
+    def metric(w, fam):
+        out = []
+        for c in X.calls(f, rhs_of(w)):
+            if X.callee_name(c) in fam and (X.receiver(c) is None or X.strip(X.receiver(c))["k"] == "CXXThisExpr"):
+                out.append(tuple(X.re_strip(X.key(a, f)) for a in X.call_args(c)))
+        return out
+    mp = [m for w in pot for m in metric(w, ("dist2",))]
+    ms = [m for w in spring for m in metric(w, ("dist2_lgrad",))]
+    ok = len(mp) == 1 and len(ms) == 1 and mp[0] == ms[0] and set(mp[0]) == {"this.x_ext", "this.x"}
+    rep.add("C17-R5", "spring|metric", f.loc(spring[0]), "coupling energy from dist2%s, spring force from dist2_lgrad%s" % (mp, ms), ok,
+            detail="energy and force of the coupling would disagree for periodic variables (or whenever the metric is not the plain difference)", func=f.q)
+    for w in spring:
+        raw = [x for x in f.walk(rhs_of(w)) if (x["k"] == "CXXOperatorCallExpr" and x.get("op") == "-" and len(X.call_args(x)) == 2 and
+                                                 {X.re_strip(X.key(a, f)) for a in X.call_args(x)} == {"this.x", "this.x_ext"})]
+        rep.add("C17-R5", "spring|no-raw-difference", f.loc(w), "the spring force contains no raw difference of x and x_ext", not raw, func=f.q)
+
+
+def r6(F, rep):
+    from . import mirror
+    mirror.check(F, rep, "C17-R6", lambda f: f.q in ("colvar::calc_colvar_properties", "colvar::init_extended_Lagrangian",
+                                                     "colvar::update_extended_Lagrangian"), 2,
+                 "the extended-Lagrangian code (reflecting-boundary flags and the boundaries they refer to)")
+
+
 def run(F, rep, tier):
     r1(F, rep)
     r2(F, rep)
     r3(F, rep)
     r4(F, rep)
+    r5(F, rep)
+    r6(F, rep)
